@@ -833,3 +833,126 @@ pub fn cmd_replay(args: &[String]) {
     }
     rep.write(&args[1]);
 }
+
+// ------------------------------------------------------------------------------- impl -> spec trace driver
+/// What the real system looks like now, in the vocabulary of Protected.tla.
+fn observe(slots: &[Slot]) -> Value {
+    let pg = page();
+    let maps = smaps();
+    let al = allocs();
+    let rl = rels();
+    let released: std::collections::HashSet<usize> = rl.iter().map(|r| r.0).collect();
+    let mut regs = vec![];
+    for hh in 1..=2usize {
+        match &slots[hh].reg {
+            None => regs.push(json!({"alive": false})),
+            Some(r) => {
+                let (w, pm, lm) = r.state();
+                let len = r.view().map(|v| v.len() as i64).unwrap_or(-1);
+                let ok = r.view().map(|v| v == &slots[hh].shadow[..]).unwrap_or(true);
+                // which allocation holds the bytes (0 = none / not observable)
+                let ai = r.view().filter(|v| !v.is_empty()).and_then(|v| al.iter().rposition(|(a, _)| *a == v.as_ptr() as usize)).map(|i| i + 1).unwrap_or(0);
+                regs.push(json!({"alive": true, "wrap": w, "pm": pm, "lm": lm, "len": len, "contents_ok": ok, "a": ai}));
+            }
+        }
+    }
+    let mut av = vec![];
+    for (ai, (addr, size)) in al.iter().enumerate() {
+        // live = handed out and not released since (an address can be handed out again)
+        let later_same = al.iter().skip(ai + 1).any(|(a2, _)| a2 == addr);
+        let nrel = rl.iter().filter(|r| r.0 == *addr).count();
+        let nalloc_before = al.iter().take(ai + 1).filter(|(a2, _)| a2 == addr).count();
+        let live = nrel < nalloc_before && !later_same;
+        let _ = &released;
+        let np = (size + (pg - size % pg)) / pg + 2;
+        let pages: Vec<u64> = if live { (0..np).map(|pi| page_code(&maps, addr - pg + pi * pg)).collect() } else { vec![] };
+        av.push(json!({"cap": size, "live": live, "pages": pages}));
+    }
+    let rel: Vec<Value> = rl.iter().map(|(_, size, nz)| json!({"size": size, "nz": nz})).collect();
+    json!({"regs": regs, "allocs": av, "rel": rel})
+}
+
+/// `prot-trace <out.ndjson> <seed> <runs> <ops>`: random operation sequences chosen by the driver (not by the
+/// specification), one forked child per run, one event per call with the observed kernel/allocator state.
+pub fn cmd_trace(args: &[String]) {
+    let seed: u64 = args[1].parse().unwrap();
+    let runs: u64 = args[2].parse().unwrap();
+    let nops: u64 = args[3].parse().unwrap();
+    let lens: [usize; 10] = [0, 1, 16, 32, 64, 4095, 4096, 4097, 8192, 8193];
+    let forms_fixed = ["new_locked", "new_readonly_locked", "gen_locked", "gen_readonly_locked", "from_slice_into_locked", "from_slice_into_readonly_locked", "stack_mlock", "stack_mprotect_readonly", "heap"];
+    let forms_res = ["new_locked", "new_readonly_locked", "from_slice_into_locked", "from_slice_into_readonly_locked", "heap"];
+    std::fs::write(&args[0], "").unwrap();
+    for run in 0..runs {
+        let pid = unsafe { libc::fork() };
+        if pid == 0 {
+            let mut out = std::fs::OpenOptions::new().append(true).open(&args[0]).unwrap();
+            let mut rng = Rng::new(seed.wrapping_mul(7919).wrapping_add(run));
+            install_observers();
+            shim_set(99);
+            writeln!(out, "{}", json!({"ev": "reset", "run": run})).unwrap();
+            let mut slots: Vec<Slot> = (0..3).map(|_| Slot { reg: None, shadow: vec![] }).collect();
+            let mut plen: [usize; 3] = [0; 3];     // how many leading bytes hold test data (as Protected.tla's plen)
+            let mut done = 0;
+            let mut tries = 0;
+            while done < nops && tries < nops * 20 {
+                tries += 1;
+                let h = 1 + rng.below(2) as usize;
+                let g = 3 - h;
+                let choice = rng.below(12);
+                // (op tuple, result) if the operation is offered by the current types
+                let mut ev: Option<(Value, Result<(), String>)> = None;
+                if slots[h].reg.is_none() {
+                    if choice < 6 && allocs().len() < 20 {
+                        let resizable = rng.below(2) == 0;
+                        let form = if resizable { forms_res[rng.below(forms_res.len() as u64) as usize] } else { forms_fixed[rng.below(forms_fixed.len() as u64) as usize] };
+                        let mut len = lens[rng.below(10) as usize];
+                        if resizable && (form == "new_locked" || form == "new_readonly_locked") { len = 0; }
+                        let kind = if resizable { "Resizable" } else { "Fixed" };
+                        let data = pattern(len);
+                        let r = catch(|| AnyReg::construct(kind, len, form, &data));
+                        let res = match r {
+                            Ok(Ok(reg)) => {
+                                let sh = match form { "new_locked" | "new_readonly_locked" => vec![0u8; len], "gen_locked" | "gen_readonly_locked" => reg.view().map(|s| s.to_vec()).unwrap_or_default(), _ => data.clone() };
+                                slots[h] = Slot { reg: Some(reg), shadow: sh };
+                                plen[h] = if form == "new_locked" || form == "new_readonly_locked" { 0 } else { len };
+                                Ok(())
+                            }
+                            Ok(Err(e)) => Err(e),
+                            Err(p) => Err(format!("PANIC {}", p)),
+                        };
+                        ev = Some((json!(["ctor", h, form, kind, len]), res));
+                    }
+                } else {
+                    match choice {
+                        0 | 1 => { let r = slots[h].reg.take().unwrap(); if r.state().0 == "Plain" || r.state().2 == "Unlocked" { let name = if r.state().0 == "Plain" { "heap_mlock" } else { "mlock" };
+                                    let res = match catch(|| r.lock()) { Ok(Ok(n)) => { slots[h].reg = Some(n); Ok(()) } Ok(Err(e)) => Err(e), Err(p) => Err(format!("PANIC {}", p)) }; ev = Some((json!([name, h]), res)); } else { slots[h].reg = Some(r); } }
+                        2 => { let r = slots[h].reg.take().unwrap(); if r.state().0 == "Prot" { let res = match catch(|| r.unlock()) { Ok(Ok(n)) => { slots[h].reg = Some(n); Ok(()) } Ok(Err(e)) => Err(e), Err(p) => Err(format!("PANIC {}", p)) }; ev = Some((json!(["munlock", h]), res)); } else { slots[h].reg = Some(r); } }
+                        3 | 4 | 5 => { let pm = ["RO", "RW", "NA"][(choice - 3) as usize]; let r = slots[h].reg.take().unwrap(); let (w, _, lm) = r.state();
+                                    if w == "Prot" && !(pm == "NA" && lm == "Locked") { let res = match catch(|| r.protect(pm)) { Ok(Ok(n)) => { slots[h].reg = Some(n); Ok(()) } Ok(Err(e)) => Err(e), Err(p) => Err(format!("PANIC {}", p)) }; ev = Some((json!(["mprotect", h, pm]), res)); } else { slots[h].reg = Some(r); } }
+                        6 => { if slots[g].reg.is_none() && allocs().len() < 20 { let r = { let src = slots[h].reg.as_ref(); catch(|| src.unwrap().dup()) };
+                                    match r { Ok(Ok(n)) => { let sh = slots[h].shadow.clone(); slots[g] = Slot { reg: Some(n), shadow: sh }; plen[g] = plen[h]; ev = Some((json!(["clone", h, g]), Ok(()))); } Ok(Err(e)) if e.starts_with("HARNESS") => {} Ok(Err(e)) => ev = Some((json!(["clone", h, g]), Err(e))), Err(p) => ev = Some((json!(["clone", h, g]), Err(format!("PANIC {}", p)))) } } }
+                        7 | 8 => { let n = lens[rng.below(10) as usize]; let cur = slots[h].shadow.len(); if n != cur && allocs().len() < 20 { let r = { let reg = slots[h].reg.as_mut(); catch(|| reg.unwrap().resize(n)) };
+                                    match r { Ok(Ok(())) => { slots[h].shadow.resize(n, 0); plen[h] = plen[h].min(n); ev = Some((json!(["resize", h, n]), Ok(()))); } Ok(Err(e)) if e.starts_with("HARNESS") => {} Ok(Err(e)) => ev = Some((json!(["resize", h, n]), Err(e))), Err(p) => ev = Some((json!(["resize", h, n]), Err(format!("PANIC {}", p)))) } } }
+                        9 => { let s = &mut slots[h]; let need = plen[h] != s.shadow.len(); if need { if let Some(v) = s.reg.as_mut().and_then(|r| r.view_mut()) { let n = v.len(); v.copy_from_slice(&pattern(n)); s.shadow = pattern(n); plen[h] = n; ev = Some((json!(["fill", h]), Ok(()))); } } }
+                        _ => { let r = slots[h].reg.take(); let res = match catch(move || drop(r)) { Ok(()) => Ok(()), Err(p) => Err(format!("PANIC {}", p)) }; slots[h].shadow.clear(); ev = Some((json!(["drop", h]), res)); }
+                    }
+                }
+                if let Some((op, res)) = ev {
+                    done += 1;
+                    let rs = match &res { Ok(()) => "Ok", Err(e) if e.starts_with("PANIC") => "Panic", Err(_) => "Err" };
+                    writeln!(out, "{}", json!({"ev": "op", "op": op, "res": rs, "obs": observe(&slots)})).unwrap();
+                    if rs != "Ok" && (op[0] == "mlock" || op[0] == "heap_mlock") { /* the region was consumed */ slots[h].shadow.clear(); }
+                }
+            }
+            for s in slots.iter_mut() { let r = s.reg.take(); let _ = catch(move || drop(r)); }
+            writeln!(out, "{}", json!({"ev": "end", "obs": observe(&slots), "vmlck_kb": vmlck_kb()})).unwrap();
+            unsafe { libc::_exit(0) };
+        }
+        let mut st = 0;
+        unsafe { libc::waitpid(pid, &mut st, 0) };
+        if libc::WIFSIGNALED(st) {
+            let mut out = std::fs::OpenOptions::new().append(true).open(&args[0]).unwrap();
+            writeln!(out, "{}", json!({"ev": "crash", "signal": libc::WTERMSIG(st), "run": run})).unwrap();
+        }
+    }
+}
